@@ -55,6 +55,9 @@ def register(m):
     m("C05", "b4-float-exponent-regression", "symplyphysics/core/dimensions/collect_quantity.py", "        dim_exp = nsimplify(exp_factor, rational=True) if exp_factor.is_Float else exp_factor", "        dim_exp = exp_factor", "S6",
       note="the genuine defect repaired in 42bd8dd")
     m("C06", "b4-float-exponent-regression-c06", "symplyphysics/core/dimensions/collect_expression.py", "    dim_exp = nsimplify(exp_expr, rational=True) if exp_expr.is_Float else exp_expr", "    dim_exp = exp_expr", "S6")
+    m("C02", "b4-is-ge-guard-returns-none-regression", "symplyphysics/core/symbols/quantities.py",
+      "        raise ValueError(f\"Dimension of '{rhs}' is {rhs.dimension}, but it should be {lhs.dimension}\")", "        return None", "P7",
+      note="the first repair (ec63bf7) was incomplete; completed in 0b985b3")
     # C09 N1: factories hand out fresh systems
     m("C09", "b2-transform-returns-argument", CSYS,
       ") -> CoordinateSystem:\n    new_coord_system = from_system.coord_system.create_new(",
